@@ -66,6 +66,13 @@ BUILT.update({
    "Trusts the probe placement (hooks are observe-only)."),
 })
 
+BUILT.update({
+ "C27": ("exploration", "DESIGN.md §5 C27",
+   "seeded simulation of Python object lifetimes and address reuse around clvm_tree_to_lazy_node: a harness storage object decides per .pair call (from the run PRNG, recorded for replay) between cached and fresh children, garbage collections and same-size-class allocation churn; every shipped CLVMStorage wrapper; failures confirmed in fresh interpreters",
+   "The converted tree must serialize back to the original for every wrapper, including ones whose pair accessor builds fresh child objects; the object-lifetime schedule is owned and replayed by the simulator.",
+   "CPython allocator determinism for identical allocation sequences in a fresh interpreter; wheel cdylib built from the working tree without hooks."),
+})
+
 NA = {
  "C01": "Pure function of (program, environment, budget): no schedule, fault, stream or history to simulate; the only entropy it consults (add/sub accumulator split) is covered by C03; and its oracle, the Python clvm package, is not installed and cannot be fetched offline.",
  "C05": "Compares three differently-compiled builds of pure code; the deciding method is cross-build differential testing, which has no fault, entropy, stream or history dimension for a simulator to own.",
